@@ -120,12 +120,19 @@ def _is_finite(value):
     :param value: A value, possibly a list or a dictionary
     :return: True if the value can be written back as JSON
     """
-    if isinstance(value, float):
-        return value == value and value not in (float("inf"), float("-inf"))
-    elif isinstance(value, (utils.ListType, utils.TupleType)):
-        return all(_is_finite(item) for item in value)
-    elif isinstance(value, utils.DictType):
-        return all(_is_finite(item) for item in value.values())
+    # Iterative walk: the value can be nested as deeply as the JSON parser
+    # allows, which is deeper than what a recursive function could follow
+    to_check = [value]
+    while to_check:
+        item = to_check.pop()
+        if isinstance(item, float):
+            if item != item or item in (float("inf"), float("-inf")):
+                return False
+        elif isinstance(item, (utils.ListType, utils.TupleType)):
+            to_check.extend(item)
+        elif isinstance(item, utils.DictType):
+            to_check.extend(item.values())
+
     return True
 
 
